@@ -561,7 +561,7 @@ def tables_for(spec):
     looks at gets a single row; paired-end sets use a selection (the number of paths is the product over both mates):
       text    no --max-n: one text per length 0..3; --max-n single-end: all ten (length, N count) rows;
               --max-n paired: (0,0) (1,0) (2,1) (2,2) (3,0) (3,2)
-      header  --discard-casava single-end: all eight; paired: no comment / passes / fails / fails + ' rc' / passes + later ':Y:' field
+      header  --discard-casava single-end: all eight (with --max-ee/--max-aer: passes / fails / ':Y:' in the ID / fails + ' rc' / passes + later ':Y:'\n              field); paired: no comment / passes / fails / fails + ' rc' / passes + later ':Y:' field (with --max-ee/--max-aer: passes / fails)
       expected errors  --max-ee/--max-aer single-end: 0, 1, 1.5, 2.5; paired: 1, 1.5, 2.5"""
     key = id(spec)
     if key not in _TABLES:
@@ -571,12 +571,13 @@ def tables_for(spec):
             t = [0, 1, 4, 5, 6, 8]
         else:
             t = list(range(len(TEXT_ROWS)))
+        with_ee = spec.max_ee is not None or spec.max_aer is not None
         if not spec.casava:
             c = [0]
         elif spec.paired:
-            c = [0, 1, 2, 5, 7]
+            c = [1, 2] if with_ee else [0, 1, 2, 5, 7]
         else:
-            c = list(range(len(NAME_ROWS)))
+            c = [1, 2, 3, 5, 7] if with_ee else list(range(len(NAME_ROWS)))
         if spec.max_ee is None and spec.max_aer is None:
             e = [0]
         elif spec.paired:
